@@ -384,7 +384,8 @@ class TemplatedPlatform(Platform):
             return "".join(escape_one(m) for m in re.finditer(r"([^A-Za-z0-9_])|(.)", string))
 
         def tcl_quote(string, quirk=None):
-            escaped = '"' + re.sub(r"([$[\\])", r"\\\1", string) + '"'
+            # Attribute values may be integers as well as strings.
+            escaped = '"' + re.sub(r"([$[\\])", r"\\\1", str(string)) + '"'
             if quirk == "Diamond":
                 # Diamond seems to assign `clk\$2` as a name for the Verilog net `\clk$2 `, and
                 # `clk\\\$2` as a name for the Verilog net `\clk\$2 `.
